@@ -94,6 +94,7 @@ def handle (line : String) : String :=
     Enc.handleEnc bs b0 lim mode term instrs src tgt terms memenc pairs ls ledges wts emp
   | ["CMP", so, sp, pairs] => Cmp.handleCmp so sp pairs
   | ["JSONITEMS", p0, items] => Json.handleItems p0 items
+  | ["JSONBLOCKS", p0, items] => Json.handleBlocks p0 items
   | _ => "error:unknown-request"
 
 partial def loop (h : IO.FS.Stream) (out : IO.FS.Stream) : IO Unit := do
